@@ -112,6 +112,16 @@ func main() {
 		os.Exit(runVerify(pos, opt))
 	case "list":
 		os.Exit(runList(opt))
+	case "ssa":
+		L := mustLoad(opt)
+		for f := range L.allFuncs {
+			for _, p := range pos {
+				if strings.Contains(f.String(), p) {
+					f.WriteTo(os.Stdout)
+				}
+			}
+		}
+		os.Exit(0)
 	case "tables":
 		L := mustLoad(opt)
 		for _, t := range L.extractTables() {
@@ -197,6 +207,7 @@ func contractMentions(c *FuncContract, id string) bool {
 
 // jobsFor collects the units that carry obligations of a property ("" = all).
 func jobsFor(L *Loaded, id string, opt runOpts) ([]unitJob, []*UnitResult) {
+	L.extractTables() // computed once, before the units run in parallel
 	var jobs []unitJob
 	var missing []*UnitResult
 	for _, c := range L.contracts.order {
@@ -249,7 +260,15 @@ func jobsFor(L *Loaded, id string, opt runOpts) ([]unitJob, []*UnitResult) {
 		}
 		for _, fn := range hits {
 			fn, c := fn, c
-			t := &tableEntry{kind: "closure", table: c.key, name: "@" + c.anchor, fn: fn, site: fn}
+			tab := c.key
+			if ta := topLevel(fn).TypeArgs(); len(ta) > 0 {
+				var as []string
+				for _, a := range ta {
+					as = append(as, types.TypeString(a, func(p *types.Package) string { return p.Name() }))
+				}
+				tab += "[" + strings.Join(as, ",") + "]"
+			}
+			t := &tableEntry{kind: "closure", table: tab, name: "@" + c.anchor, fn: fn, site: fn}
 			jobs = append(jobs, unitJob{name: t.unitName(), run: func() *UnitResult { return VerifyEntry(L, t, c, c, opt) }})
 		}
 	}
